@@ -1263,6 +1263,7 @@ std::optional<QByteArray> QXmppSaslClientScram::respond(const QByteArray &challe
         const QMap<char, QByteArray> input = parseGS2(challenge);
         m_step++;
         if (QByteArray::fromBase64(input.value('v')) == m_serverSignature) {
+            m_serverVerified = true;
             return QByteArray();
         }
         return {};
